@@ -235,7 +235,7 @@ class Traces:
 PAXOS_DEVS = ["phase2_restart_on_late_promise", "retry_keeps_stale_tallies"]
 # plausible mutations modelled as deviations (never in the pinned code): sensitivity runs, schedules for the
 # real nodes, and names for regressions that match their signature
-PAXOS_PLAUSIBLE = ["adopt_by_ballot_number_only"]
+PAXOS_PLAUSIBLE = ["adopt_by_ballot_number_only", "accept_does_not_raise_promise"]
 PAXOS_ALL = PAXOS_DEVS + PAXOS_PLAUSIBLE
 PAXOS_INVS = ["InvAgreement", "InvValidity", "InvFutureTruth", "InvFutureValid"]
 
@@ -280,6 +280,14 @@ def paxos_jobs(jobs, tier):
                                               PAXOS_INVS, ["PropStability"], workers=small if tier == "quick" else big))
     jobs.submit("paxos_dev_adopt_by_ballot_number_only", lambda: mc(
         P, "paxos_dev_adopt", paxos_consts(dev=["adopt_by_ballot_number_only"], **PAXOS_CUT), PAXOS_INVS, workers=small))
+    # an Accept overtakes its own (lost) Prepare, stale Accepts of a lower ballot arrive afterwards
+    ov = dict(proposers="{2,3}", lost="LostOvertake")
+    jobs.submit("paxos_clean_overtake", lambda: mc(P, "paxos_clean_overtake", paxos_consts(**ov), PAXOS_INVS,
+                                                   ["PropStability"], workers=big))
+    jobs.submit("paxos_dev_accept_does_not_raise_promise", lambda: mc(
+        P, "paxos_dev_noraise", paxos_consts(dev=["accept_does_not_raise_promise"], **(ov if tier == "quick" else
+                                                                                      dict(proposers="{2,3}"))),
+        PAXOS_INVS, workers=big))
     jobs.submit("paxos_tour_cut", lambda: mc(P, "paxos_tour_cut", paxos_consts(maxb=3, dev=open_devs(PAXOS_DEVS), **PAXOS_CUT),
                                              workers=small, dot=True))
 
@@ -294,7 +302,10 @@ def run_paxos(chk, jobs, tier, rng, parallel):
 
     n_direct, n_sim, n_prog = (120, 16, 10) if tier == "quick" else (900, 120, 60)
     for k in range(n_direct):
-        if k % 3 == 2:
+        if k % 6 == 5:
+            c, info = P.overtake_direct(rng)
+            info["origin"] = "overtake template (Accept before its Prepare, old promise late, stale lower Accept, retry)"
+        elif k % 3 == 2:
             c, info = P.rounds_direct(rng)
             info["origin"] = "round-structured direct drive (same-number ballots, held Accepts, retries, heal)"
         else:
@@ -337,6 +348,10 @@ def run_paxos(chk, jobs, tier, rng, parallel):
     chk.add_tlc("Paxos Dev={} (n1,n3 propose at any time" + (", once each" if tier == "quick" else ", up to 3 proposals") +
                 ", partitioned from each other, same ballot numbers, retries, ballots<=3)", res)
     chk.require(res.ok, f"Paxos.tla with Dev={{}} violates {res.violated} (partitioned proposers)")
+    res = jobs.result("paxos_clean_overtake")
+    chk.add_tlc("Paxos Dev={} (n2,n3 compete with the same ballot number; n3's Prepare to n1 and n2's Prepare to n3 "
+                "are lost, Accepts overtake them; retries, ballots<=2)", res)
+    chk.require(res.ok, f"Paxos.tla with Dev={{}} violates {res.violated} (Accept overtakes Prepare)")
     res = jobs.result("paxos_tour_cut")
     chk.add_tlc("Paxos as-code, partitioned competing proposers n1|n3: full state graph (dot)", res, count=False)
     # exhaustive tours of the two small as-code graphs, schedule replay on the real nodes
@@ -377,6 +392,8 @@ def run_paxos(chk, jobs, tier, rng, parallel):
 MULTI_DEVS = ["takeover_ignores_promised_entries", "slot_acks_ignore_ballot", "accept_keeps_leadership",
               "accept_rewrites_log_blindly", "self_heartbeat_demotes_leader"]
 MULTI_INVS = ["InvAgreement", "InvValidity", "InvFutureTruth"]
+MULTI_PLAUSIBLE = ["commit_scan_stops_at_acked_slot"]       # plausible mutation of the repaired _handle_accepted
+MULTI_ALL = MULTI_DEVS + MULTI_PLAUSIBLE
 
 
 def multi_consts(n=3, flex=False, q1=2, q2=2, cands="{1,2}", subs="{1,2}", maxb=2, starts=2, cmds=2, ticks=0,
@@ -424,13 +441,16 @@ def multi_jobs(jobs, tier):
     jobs.submit("multi_live_dev", lambda: mc(M, "multi_live_dev", multi_consts(dev=["self_heartbeat_demotes_leader"],
                                                                                **MULTI_LIVE), [], ["Progress"],
                                              spec="FairSpec", workers=small))
+    jobs.submit("flex_live_dev_scan", lambda: mc(M, "flex_live_dev_scan", multi_consts(
+        dev=["commit_scan_stops_at_acked_slot"], **dict(MULTI_LIVE, flex=True, cmds=2)), [], ["Progress"],
+        spec="FairSpec", workers=small))
     if tier != "quick":
         jobs.submit("flex_live_clean", lambda: mc(M, "flex_live_clean", multi_consts(**dict(MULTI_LIVE, flex=True, cmds=2)),
                                                   [], ["Progress"], spec="FairSpec", workers=small))
     # small as-code graph for the edge tour (Multi-Paxos as coded, one leader, one command, one tick)
     jobs.submit("multi_tour", lambda: mc(M, "multi_tour", multi_consts(cands="{}", subs="{1}", starts=1, cmds=1, maxb=1,
                                                                        hb=True, ticks=1, prefix="PrefixLeader1",
-                                                                       dev=MULTI_DEVS), workers=small, dot=True))
+                                                                       dev=open_devs(MULTI_DEVS)), workers=small, dot=True))
     jobs.submit("multi_nonintersecting", lambda: mc(M, "multi_nonintersect", multi_consts(
         flex=True, q1=1, q2=2, cands="{1,3}", subs="{1,3}", starts=2, cmds=2, maxb=1), MULTI_INVS, workers=small))
 
@@ -482,6 +502,11 @@ def run_multi(chk, jobs, tier, rng, parallel):
                 note="sensitivity run, must violate")
     chk.require(res.violated == "temporal", f"deviation self_heartbeat_demotes_leader not caught (got {res.violated})")
     chk.sensitivity["self_heartbeat_demotes_leader"] = "Progress"
+    res = jobs.result("flex_live_dev_scan")
+    chk.add_tlc("Flexible Dev={commit_scan_stops_at_acked_slot} FairSpec Progress, 2 commands", res, count=False,
+                note="sensitivity run, must violate")
+    chk.require(res.violated == "temporal", f"deviation commit_scan_stops_at_acked_slot not caught (got {res.violated})")
+    chk.sensitivity["commit_scan_stops_at_acked_slot(plausible mutation)"] = "Progress"
     res = jobs.result("multi_nonintersecting")
     chk.add_tlc("Flexible Paxos Dev={} with NON-intersecting quorums Q1=1,Q2=2,N=3", res, count=False,
                 note="must violate: shows Agreement depends on Q1+Q2>N")
@@ -511,8 +536,8 @@ def run_multi(chk, jobs, tier, rng, parallel):
     dot.unlink(missing_ok=True)
     chk.extra["multi_tour"] = {"states": len(g.nodes), "edges": g.n_edges(), "paths": n_paths}
 
-    pre = yield [(SPEC / "MultiTrace.tla", T.traces, MULTI_DEVS, "C12_multi_trace", parallel)]
-    stats = judge(chk, "multi", SPEC / "MultiTrace.tla", T.traces, T.meta, MULTI_DEVS, "C12_multi_trace", parallel, pre[0])
+    pre = yield [(SPEC / "MultiTrace.tla", T.traces, MULTI_ALL, "C12_multi_trace", parallel)]
+    stats = judge(chk, "multi", SPEC / "MultiTrace.tla", T.traces, T.meta, MULTI_ALL, "C12_multi_trace", parallel, pre[0])
     stats["generation_s"] = round(gen_s, 1)
     chk.extra["multi"] = stats
     t = T.traces[0]
@@ -655,7 +680,7 @@ def do_replay(chk, path):
     data = json.loads(open(path).read())
     rep = data["replay"]
     fam = rep["family"]
-    module, devs = {"paxos": ("PaxosTrace.tla", PAXOS_ALL), "multi": ("MultiTrace.tla", MULTI_DEVS),
+    module, devs = {"paxos": ("PaxosTrace.tla", PAXOS_ALL), "multi": ("MultiTrace.tla", MULTI_ALL),
                     "elect": ("ElectionTrace.tla", []), "lock": ("LockTrace.tla", [])}[fam]
     t = rep["trace"]
     t["id"] = 1
